@@ -658,15 +658,18 @@ def eq_fields(run: Run, model: PyModel, rid: str) -> None:
 
 
 def clock_agreement(run: Run, model: PyModel, rid: str) -> None:
+    from .indexscen import event_handlers
+
     n = 0
-    for q in (f"{H}._check_for_modified_notes", f"{H}.update_note_modify_dates"):
+    roots = [f"{H}._check_for_modified_notes"] + event_handlers(model, "ModifiedZorgNotesEvent")
+    for q in sorted(model.reachable(roots)):
         fi = model.func(q)
         for call, kind in clock_calls(fi.node):
             n += 1
             run.check(rid, f"{fi.name}: 'today' is the local calendar day", kind == "local", fi.name, call,
                       f"{fi.name} reads the clock with `{ast.unparse(call)}` while the other side of the stamping uses the local date: when local and UTC days differ, "
                       "index and file are stamped with different dates", file=fi.file, node=call)
-    run.floor("clock reads in the stamping cascade", n, 2)
+    run.floor("clock reads in the stamping cascade", n, 1)
 
 
 def commit_sites(run: Run, model: PyModel, eff: Effects, rid: str) -> None:
